@@ -19,7 +19,7 @@ def build(tree, case, oids, name="T"):
         return f, (lambda: proj.proj_tensor(t, oids))
     coords = [c for c, _ in tree["e"]]
     pls = [p["v"] for _, p in tree["e"]]
-    f = Fiber(coords, pls, shape=shape, active_range=act, default=case.get("dflt", 0))
+    f = Fiber(coords, pls, shape=None if case.get("noshape") else shape, active_range=act, default=case.get("dflt", 0))
     if case.get("fmt") == "U":
         f.getRankAttrs().setFormat("U")
     return f, (lambda: {"rank0": 0, "root": proj.proj_fiber(f, None, oids), "ranks": []})
